@@ -76,6 +76,14 @@ CHECKS["C07"] = {
             "admit (witness precision reported). Does not decide bit-exactness of %a, decimal round-off, property payloads or equality of applied S.",
     "note": "ID->key map is taken from parse_data's own key switch; precision ranges come from all stores into vc_fprecision/vc_dprecision",
 }
+CHECKS["C09"] = {
+    "technique": "static tag-dominance dataflow for libyaml unions, definite-initialisation dataflow, predecessor-guard facts, typestate (leaks) and failure dataflow on every reject path of the parsers",
+    "text": "Decides for the five parser entry points and their helpers: every yaml node union access is dominated by the matching node->type test (also through "
+            "call sites of static helpers); believed-NULL pointer tables are initialised before they are consulted; predecessor comparisons cover the first pair; "
+            "every reject path releases what it built (memory, FILE, libyaml parser/document), returns the failure value, does not report success after an error and "
+            "does not drop a callee's failure. Does not decide that every byte string is classified correctly nor the save-and-reload clause.",
+    "note": "termination of the scanners and bounds of header-sized buffers (R11/R25 on loaders) are not yet part of this check",
+}
 NOT_APPLICABLE = {
     "C14": "YAML fidelity of arbitrary scalars/keys depends on libyaml's emitter/scanner behaviour on run-time strings; no clause is visible in libvna's source shape (DESIGN.md section 3, C14)",
 }
